@@ -340,7 +340,13 @@ func splitFilter(s, sep string) any {
 func uniqFilter(a []any) (result []any) {
 	seenMap := map[any]bool{}
 	seen := func(item any) bool {
-		if k := reflect.TypeOf(item).Kind(); k < reflect.Array || k == reflect.Ptr || k == reflect.UnsafePointer {
+		// nil is an element like any other (it has no reflect.Type to ask for a kind)
+		hashable := item == nil
+		if !hashable {
+			k := reflect.TypeOf(item).Kind()
+			hashable = k < reflect.Array || k == reflect.Ptr || k == reflect.UnsafePointer
+		}
+		if hashable {
 			if seenMap[item] {
 				return true
 			}
@@ -364,6 +370,9 @@ func uniqFilter(a []any) (result []any) {
 }
 
 func eqItems(a, b any) bool {
+	if a == nil || b == nil {
+		return a == b
+	}
 	if reflect.TypeOf(a).Comparable() && reflect.TypeOf(b).Comparable() {
 		return a == b
 	}
